@@ -345,6 +345,23 @@ theorem ensureValidator_pub (g : Grammar) : g.ensureValidator.pub = g.pub := by
     simpa [Grammar.pub] using this
   · rfl
 
+theorem CacheOK_fillSchema (g : Grammar) (h : g.CacheOK) : g.fillSchema.CacheOK := by
+  unfold Grammar.fillSchema
+  split
+  · exact ⟨Or.inr rfl, h.2⟩
+  · exact h
+
+theorem CacheOK_ensureValidator (g : Grammar) (h : g.CacheOK) : g.ensureValidator.CacheOK := by
+  unfold Grammar.ensureValidator
+  split
+  · have h1 := CacheOK_fillSchema g h
+    refine ⟨h1.1, ?_⟩
+    right
+    rcases h1.1 with hs | hs
+    · simp [hs]
+    · simp [hs]
+  · exact h
+
 theorem Inv_validate (g : Grammar) (d : List (Name × Val)) (h : g.Inv) : (validate g d).2.Inv := by
   unfold validate
   split
